@@ -60,10 +60,18 @@ def sessions(r, conformant=False):
             bad_at = r.randrange(len(frames)) if r.random() < 0.3 else None
             for i, f in enumerate(frames):
                 if i == bad_at:
+                    damaged = gens.corrupt(r, f)[0]
                     for _ in range(r.choice([1, 1, 2])):
-                        evs.append(("d", gens.corrupt(r, f)[0]))
+                        # (the very same damaged bytes may arrive more than once)
+                        evs.append(("d", damaged if r.random() < 0.5 else gens.corrupt(r, f)[0]))
                     meta["retransmissions"] = meta.get("retransmissions", 0) + 1
                 evs.append(("d", f))
+            if len(frames) == 1 and r.random() < 0.12:
+                # the instrument repeats a message verbatim (lost ACK, or simply the same result twice): both copies
+                # are acknowledged and both belong to the delivery
+                for _ in range(r.choice([1, 1, 2])):
+                    evs.append(("d", frames[0]))
+                meta["verbatim-repeats"] = meta.get("verbatim-repeats", 0) + 1
         if ending == "abandoned":
             # an unfinished multi-frame run: intermediate frames without their final frame
             for _ in range(r.choice([1, 2])):
@@ -99,6 +107,8 @@ def run(ctx):
                 s.count(e)
             if meta.get("retransmissions"):
                 s.count("with-retransmission")
+            if meta.get("verbatim-repeats"):
+                s.count("with-verbatim-repeat")
             hs.append((fmt, evs + gens.PROBE, meta))
         run_histories_fmt(s, hs, ctx)
         if conformant:
@@ -117,6 +127,37 @@ def run(ctx):
                                        "%s/not-rendered" % s.name)
                                 break
         streams.append(s)
+
+    # other instruments are connected and busy at the same time: what this connection delivers is still exactly its own
+    oc = Stream("while-other-connections-are-busy")
+    from harness import impl as _impl
+    for _ in range(1500 if ctx.thorough else 200):
+        evs, meta = sessions(r, False)
+        others = [sessions(r, False)[0] for _ in range(r.choice([1, 2]))]
+        if any(gens.is_vendor_line(e[1]) for h in [evs] + others for e in h if e[0] == "d"):
+            continue
+        fmt = r.choice(["astm", "lis2a"])
+        main = _impl.Conn(fmt=fmt)
+        bg = [_impl.Conn(fmt=fmt, peer=("10.0.0.%d" % (9 + i), 5000 + i)) for i in range(len(others))]
+        pos = [0] * len(others)
+        ref = oracles.RefReceiver(fmt)
+        case = {"format": fmt, "events": [gens.ev_hex(e) for e in evs], "other_connections": [[gens.ev_hex(e) for e in h] for h in others]}
+        oc.case(case, nontrivial=meta["multi"] >= 1)
+        bad = None
+        for i, ev in enumerate(evs + gens.PROBE):
+            for j, h in enumerate(others):
+                for _k in range(r.choice([0, 1, 1, 2])):
+                    if pos[j] < len(h):
+                        bg[j].event(h[pos[j]])
+                        pos[j] += 1
+            ob = main.event(ev)
+            why = oracles.observe_matches(ref.expect(ev), ob, recv.to_json_real)
+            if why:
+                bad = "unit %d (%s): %s" % (i, gens.ev_hex(ev)[:40], why)
+                break
+        if bad:
+            oc.fail(case, bad, "other-connections/" + bad.split(": ", 1)[1].split(" ")[0])
+    streams.append(oc)
 
     # the optional debug copy (a folder astm_messages in the working directory) must not cost a delivery, whatever state
     # that folder is in: a directory, a directory that cannot be written to, a plain file of that name
